@@ -138,9 +138,10 @@ Definition is_digit_str (E : uenv) (s : str) : bool :=
 (* int(s) *)
 Definition py_int (E : uenv) (s : str) : option Z :=
   match strip s with
-  | 43 :: t => digit_group E t
-  | 45 :: t => option_map Z.opp (digit_group E t)
-  | s' => digit_group E s'
+  | [] => None
+  | c :: t => if c =? 43 then digit_group E t
+              else if c =? 45 then option_map Z.opp (digit_group E t)
+              else digit_group E (c :: t)
   end.
 
 (* the test "s.isdecimal()" followed by int(s); the legacy code tested isdigit: int() then raises ValueError on a
@@ -163,9 +164,10 @@ Definition frac_body (E : uenv) (s : str) : option Q :=
   end.
 Definition py_fraction (E : uenv) (s : str) : option Q :=
   match s with
-  | 43 :: t => frac_body E t
-  | 45 :: t => option_map Qopp (frac_body E t)
-  | _ => frac_body E s
+  | [] => None
+  | c :: t => if c =? 43 then frac_body E t
+              else if c =? 45 then option_map Qopp (frac_body E t)
+              else frac_body E (c :: t)
   end.
 
 (* str(n) *)
@@ -498,90 +500,83 @@ Definition sc_put (sc : syscomps) (k v : str) : option syscomps :=
 
 Definition nonempty (s : str) : bool := match s with [] => false | _ => true end.
 
+Definition lbind {X Y : Type} (r : lres X) (f : X -> lres Y) : lres Y :=
+  match r with
+  | Ok x => f x
+  | ParseError => ParseError
+  | Crash e => Crash e
+  end.
+
+(* the result of a guarded int() where a failing test means STVParseError *)
+Definition int_or_error (g : option (lres Z)) : lres Z := match g with Some r => r | None => ParseError end.
+
+(* _create_evaluator, the quota setting(s): the name and the mandatory flag *)
+Definition quota_setting (quota : option (str * option str)) : lres (option str * bool) :=
+  match quota with
+  | Some (a, Some b) =>
+      if str_eqb a s_mandatory || str_eqb b s_mandatory then
+        if negb (str_eqb a s_mandatory) then Ok (Some a, true)
+        else if negb (str_eqb b s_mandatory) then Ok (Some b, true)
+        else ParseError                                      (* no quota type given *)
+      else ParseError                                        (* unknown quota settings *)
+  | Some (a, None) => Ok (Some a, false)
+  | None => Ok (None, false)
+  end.
+
+Definition quota_function (E : uenv) (legacy is_blt : bool) (qname : option str) : lres qfun :=
+  match qname with
+  | None => if is_blt then Ok QNameless else ParseError      (* quota setting not found *)
+  | Some qn =>
+      match guarded_int E legacy qn with
+      | Some r => lbind r (fun n => Ok (QConst n))
+      | None => if strs_mem qn quota_names then Ok (QNamed qn) else ParseError
+      end
+  end.
+
+(* _add_tiebreaker, when random is given and not empty *)
+Definition add_tiebreaker (E : uenv) (legacy : bool) (base : ev) (random : option str) : lres ev :=
+  match random with
+  | Some r =>
+      if nonempty r then
+        if str_eqb r s_non then Ok (EvTie base (TbPre true (TbOrder true)))
+        else lbind (int_or_error (guarded_int E legacy r)) (fun n => Ok (EvTie base (TbPre true (TbSort (Some n)))))
+      else Ok base
+  | None => Ok base
+  end.
+
+(* _add_fixed_seats, when seats is given and not empty *)
+Definition add_fixed_seats (E : uenv) (e : ev) (seats : option str) : lres ev :=
+  match seats with
+  | Some s => if nonempty s then match py_int E s with Some n => Ok (EvFixed e n) | None => ParseError end else Ok e
+  | None => Ok e
+  end.
+
 (* _create_evaluator *)
 Definition create_evaluator (E : uenv) (legacy : bool) (sc : syscomps) : lres ev :=
   let gpca := match sc_method sc with Some m => str_eqb m s_GPCA | None => false end in
   let method := if gpca then Some s_BC else sc_method sc in
   let quota := if gpca then Some (s_droop, Some s_mandatory) else sc_quota sc in
   match method with
-  | None => ParseError                                                   (* STV method not found *)
+  | None => ParseError                                       (* STV method not found *)
   | Some m =>
-      let is_bc := str_eqb m s_BC in
       let is_blt := str_eqb m s_blt in
-      if negb is_bc && (negb (nonempty m) || negb is_blt) then ParseError  (* not found / not implemented *)
+      if negb (str_eqb m s_BC) && negb is_blt then ParseError  (* not found / not implemented *)
       else
-        (* the quota setting(s): name and the mandatory flag *)
-        match (match quota with
-               | Some (a, Some b) =>
-                   if str_eqb a s_mandatory || str_eqb b s_mandatory then
-                     if negb (str_eqb a s_mandatory) then Ok (Some a, true)
-                     else if negb (str_eqb b s_mandatory) then Ok (Some b, true)
-                     else ParseError                                      (* no quota type given *)
-                   else ParseError                                        (* unknown quota settings *)
-               | Some (a, None) => Ok (Some a, false)
-               | None => Ok (None, false)
-               end) with
-        | ParseError => ParseError
-        | Crash e => Crash e
-        | Ok (qname, mandatory) =>
-            match (match qname with
-                   | None => if is_blt then Ok QNameless else ParseError   (* quota setting not found *)
-                   | Some qn =>
-                       match guarded_int E legacy qn with
-                       | Some (Ok n) => Ok (QConst n)
-                       | Some ParseError => ParseError
-                       | Some (Crash e) => Crash e
-                       | None => if strs_mem qn quota_names then Ok (QNamed qn) else ParseError
-                       end
-                   end) with
-            | ParseError => ParseError
-            | Crash e => Crash e
-            | Ok qf =>
-                let base := if is_blt then EvOther true else EvTV false false (-1) true qf mandatory in
-                match (match sc_random sc with
-                       | Some r =>
-                           if nonempty r then
-                             if str_eqb r s_non then Ok (EvTie base (TbPre true (TbOrder true)))
-                             else match guarded_int E legacy r with
-                                  | Some (Ok n) => Ok (EvTie base (TbPre true (TbSort (Some n))))
-                                  | Some ParseError => ParseError
-                                  | Some (Crash e) => Crash e
-                                  | None => ParseError
-                                  end
-                           else Ok base
-                       | None => Ok base
-                       end) with
-                | ParseError => ParseError
-                | Crash e => Crash e
-                | Ok e1 =>
-                    match sc_seats sc with
-                    | Some s => if nonempty s then match py_int E s with Some n => Ok (EvFixed e1 n) | None => ParseError end
-                                else Ok e1
-                    | None => Ok e1
-                    end
-                end
-            end
-        end
+        lbind (quota_setting quota) (fun qm =>
+        lbind (quota_function E legacy is_blt (fst qm)) (fun qf =>
+        lbind (add_tiebreaker E legacy (if is_blt then EvOther true else EvTV false false (-1) true qf (snd qm)) (sc_random sc)) (fun e1 =>
+        add_fixed_seats E e1 (sc_seats sc))))
   end.
 
 (* VotingSystem(title, evaluator) *)
 Definition vsystem := (option str * ev)%type.
 Definition create_system (E : uenv) (legacy : bool) (sc : syscomps) : lres vsystem :=
-  match create_evaluator E legacy sc with
-  | Ok e => Ok (sc_title sc, e)
-  | ParseError => ParseError
-  | Crash c => Crash c
-  end.
+  lbind (create_evaluator E legacy sc) (fun e => Ok (sc_title sc, e)).
 
 (* _parse_n_ballots: None = BLT mode *)
 Definition parse_n_ballots (E : uenv) (legacy : bool) (v : str) : lres (option Z) :=
   if str_eqb v s_blt then Ok None
-  else match guarded_int E legacy v with
-       | Some (Ok n) => Ok (Some n)
-       | Some ParseError => ParseError
-       | Some (Crash e) => Crash e
-       | None => ParseError
-       end.
+  else lbind (int_or_error (guarded_int E legacy v)) (fun n => Ok (Some n)).
 
 (* the dictionary nicks: nickname -> 1-based position of the candidate, insertion order *)
 Definition nickmap := list (str * Z).
@@ -619,17 +614,10 @@ Fixpoint load_system (E : uenv) (legacy : bool) (ls : list str) (sc : syscomps) 
             match (match order with [] => Some nicks | _ => reorder_nicks nicks order [] end) with
             | None => ParseError                               (* unknown candidates in order= *)
             | Some nicks' =>
-                match create_system E legacy sc with
-                | ParseError => ParseError
-                | Crash e => Crash e
-                | Ok sys =>
-                    match parse_n_ballots E legacy v with
-                    | ParseError => ParseError
-                    | Crash e => Crash e
-                    | Ok nb => Ok ({| h_system := sys; h_cands := cands; h_nicks := nicks'; h_n_ballots := nb;
-                                      h_ordered := match order with [] => false | _ => true end |}, rest)
-                    end
-                end
+                lbind (create_system E legacy sc) (fun sys =>
+                lbind (parse_n_ballots E legacy v) (fun nb =>
+                Ok ({| h_system := sys; h_cands := cands; h_nicks := nicks'; h_n_ballots := nb;
+                       h_ordered := match order with [] => false | _ => true end |}, rest)))
             end
           else if str_eqb k s_order then load_system E legacy rest sc cands nicks (words v)
           else if str_eqb k s_candidate || str_eqb k s_withdrawn then
@@ -668,11 +656,7 @@ Fixpoint ordered_items (E : uenv) (legacy : bool) (items : list str) (pool : lis
       | Some r =>
           match nth_error pool i with
           | None => ParseError                                 (* more items than candidates *)
-          | Some c => match r with
-                      | Ok rank => ordered_items E legacy t pool (S i) (acc ++ [(c, rank)])
-                      | ParseError => ParseError
-                      | Crash e => Crash e
-                      end
+          | Some c => lbind r (fun rank => ordered_items E legacy t pool (S i) (acc ++ [(c, rank)]))
           end
       | None => if str_eqb it [45] then ordered_items E legacy t pool (S i) acc else ParseError
       end
@@ -693,12 +677,8 @@ Fixpoint ranks_are (l : list (Z * Z)) (i : Z) : bool :=
   end.
 
 Definition ordered_vote (E : uenv) (legacy : bool) (items : list str) (pool : list Z) : lres (list Z) :=
-  match ordered_items E legacy items pool 0 [] with
-  | Ok co => let s := sort_by_rank co in
-             if ranks_are s 1 then Ok (map fst s) else ParseError
-  | ParseError => ParseError
-  | Crash e => Crash e
-  end.
+  lbind (ordered_items E legacy items pool 0 []) (fun co =>
+    let s := sort_by_rank co in if ranks_are s 1 then Ok (map fst s) else ParseError).
 
 (* _iter_vote_lines fused with the vote loader: [i] counts the lines read (blank lines included) *)
 Fixpoint load_votes (E : uenv) (legacy ordered : bool) (nicks : nickmap) (ls : list str) (i n_ballots : Z)
@@ -722,15 +702,12 @@ Fixpoint load_votes (E : uenv) (legacy ordered : bool) (nicks : nickmap) (ls : l
                           else Some (1 # 1, first :: more)) with
                    | None => ParseError                        (* invalid vote weight multiplier *)
                    | Some (mult, items) =>
-                       match (if ordered then ordered_vote E legacy items (map snd nicks)
+                       lbind (if ordered then ordered_vote E legacy items (map snd nicks)
                               else match lookup_nicks nicks items with
                                    | Some v => Ok v
                                    | None => ParseError        (* unknown candidate *)
-                                   end) with
-                       | Ok vote => load_votes E legacy ordered nicks rest (i + 1) n_ballots (vadd acc vote mult)
-                       | ParseError => ParseError
-                       | Crash e => Crash e
-                       end
+                                   end)
+                             (fun vote => load_votes E legacy ordered nicks rest (i + 1) n_ballots (vadd acc vote mult))
                    end
                end
            end
@@ -767,20 +744,14 @@ Definition finish_blt (legacy : bool) (h : header) (r : lres BallotFile.loaded) 
   end.
 
 Definition stv_load_lines (E : uenv) (legacy : bool) (bl : list str -> lres BallotFile.loaded) (ls : list str) : lres stv_loaded :=
-  match load_system E legacy ls sc_empty [] [] [] with
-  | ParseError => ParseError
-  | Crash e => Crash e
-  | Ok (h, rest) =>
+  lbind (load_system E legacy ls sc_empty [] [] []) (fun hr =>
+      let (h, rest) := hr in
       match h_n_ballots h with
       | None => finish_blt legacy h (bl rest)
       | Some n =>
-          match load_votes E legacy (h_ordered h) (h_nicks h) rest 0 n [] with
-          | Ok v => Ok {| l_votes := v; l_system := h_system h; l_cands := h_cands h; l_pool := h_cands h |}
-          | ParseError => ParseError
-          | Crash e => Crash e
-          end
-      end
-  end.
+          lbind (load_votes E legacy (h_ordered h) (h_nicks h) rest 0 n [])
+                (fun v => Ok {| l_votes := v; l_system := h_system h; l_cands := h_cands h; l_pool := h_cands h |})
+      end).
 
 Definition stv_loads (E : uenv) (legacy : bool) (bl : list str -> lres BallotFile.loaded) (text : str) : lres stv_loaded :=
   stv_load_lines E legacy bl (split_nl text).
